@@ -682,7 +682,7 @@ class Gen:
 
 # ---- deep write paths (specification only): several postfix levels, with and without parentheses, rooted at a constant
 def deep_path_cases():
-    """-> [(id, text with the root const, text with the root mutable)].  A path `root(.f | [i])+`, also written with
+    """-> [(id, text with the root const, text with the root mutable, class of a failure)].  A path `root(.f | [i])+`, also written with
     parentheses around a prefix, assigned with `=` or an op-assign.  The mutable twin decides whether the form is
     legal syntax at all; if it is, the const version must be rejected at compile time and nothing may run."""
     pre = ("class Box {\n  items: [int...]\n  n: int\n  inner: [[int...]...]\n  constructor(self) {\n    self.items = [10, 20, 30]\n    self.n = 1\n    self.inner = [[1, 2], [3, 4]]\n  }\n}\n"
@@ -691,17 +691,26 @@ def deep_path_cases():
         "grid": ("%sgrid: [[int...]...] = [[1, 2], [3, 4]]\n", ["grid[0][1]", "(grid[0])[1]", "((grid)[0])[1]", "(grid)[0][1]"]),
         "box": ("%sbox = Box()\n", ["box.items[2]", "(box.items)[2]", "box.inner[1][0]", "(box.inner[1])[0]", "((box.inner)[1])[0]", "(box).n", "(box).items[0]"]),
         "boxes": ("%sboxes: [Box...] = [Box(), Box()]\n", ["boxes[0].n", "(boxes[0]).n", "(boxes[1]).items[0]", "((boxes[1]).items)[0]"]),
+        # the constant holds an OPTIONAL: the path reaches its value through `get c` / `(c) or other`; or the constant is
+        # the FALLBACK of an `or` whose first operand is nil.  Only op-assign accepts such a left-hand side.
+        "opt": ("%sol: [int...]? = [1, 2, 3]\nalt: [int...] = [7, 8, 9]\n", ["(get ol)[0]", "(get (ol))[2]", "((ol) or alt)[1]", "(((ol)) or alt)[2]"]),
+        "fallback": ("%scl: [int...] = [4, 5, 6]\nnone: [int...]? = nil\n", ["((none) or cl)[2]"]),
+        "optbox": ("%sob: Box? = Box()\nspare = Box()\n", ["(get ob).n", "((ob) or spare).n", "((get ob).items)[0]"]),
+        "fallbackbox": ("%scb = Box()\nnob: Box? = nil\n", ["((nob) or cb).n"]),
     }
+    shown_of = {"grid": "grid", "box": "[box.items, [box.n], (box.inner)[0], (box.inner)[1]]", "boxes": "[(boxes[0]).n, ((boxes[1]).items)[0]]",
+                "opt": "[ol, alt]", "fallback": "cl", "optbox": "[(get ob).n, spare.n, ((get ob).items)[0]]", "fallbackbox": "cb.n"}
     out = []
     for root, (decl, paths) in sorted(roots.items()):
         for pth in paths:
             for w in ("= 5", "+= 40", "*= 2", "-= 1", "%= 3"):
                 # the root is printed before and after: only a form that CHANGES the mutable twin is a write form
                 # (`a.b[0] += 1` is two statements in this grammar -- one postfix per atom -- and writes nothing)
-                shown = {"grid": "grid", "box": "[box.items, [box.n], (box.inner)[0], (box.inner)[1]]", "boxes": "[(boxes[0]).n, ((boxes[1]).items)[0]]"}[root]
+                shown = shown_of[root]
                 # (a statement that starts with `(` or `[` would continue the previous expression: a block statement in between)
                 body = "print %s\nif true {\n}\n%s %s\nprint \"END\"\nprint %s\n" % (shown, pth, w, shown)
-                out.append(("%s %s" % (pth, w), pre + decl % "const " + body, pre + decl % "" + body))
+                cls = "const-write-accepted:through-get-or" if root in ("opt", "fallback", "optbox", "fallbackbox") else "const-write-accepted:deep-path"
+                out.append(("%s %s" % (pth, w), pre + decl % "const " + body, pre + decl % "" + body, cls))
     return out
 
 
@@ -711,7 +720,7 @@ def run_deep_paths(ctx, binary, base):
     def one(c):
         return run_files(binary, base, {"main.ms": c[1]}), run_files(binary, base, {"main.ms": c[2]})
     n = legal = 0
-    for (cid, ctext, mtext), (rc_, rm_) in zip(cases, programs.pmap(one, cases)):
+    for (cid, ctext, mtext, cls), (rc_, rm_) in zip(cases, programs.pmap(one, cases)):
         n += 1
         vm = verdict(*rm_)
         if vm != "accepted":
@@ -722,7 +731,7 @@ def run_deep_paths(ctx, binary, base):
         legal += 1
         vc = verdict(*rc_)
         if vc != "rejected" or "MARK" in rc_[1]:
-            ctx.report("const-write-accepted:deep-path", "`%s` through a const root is %s (its mutable twin is legal): %s" % (cid, vc, (rc_[1] + rc_[2])[-200:]),
+            ctx.report(cls, "`%s` through a const root is %s (its mutable twin is legal): %s" % (cid, vc, (rc_[1] + rc_[2])[-200:]),
                        {"form": cid, "files": {"main.ms": ctext}, "observed": {"rc": rc_[0], "stdout": rc_[1][-400:], "stderr": rc_[2][-400:]},
                         "how": "mscript run main.ms -q: must fail to compile, nothing printed"})
     ctx.cov["deep_write_paths"] = {"cases": n, "legal_and_effective_on_a_mutable_root": legal}
@@ -926,7 +935,7 @@ def run(ctx):
         ctx.report("generator-degraded", "only %d of %d triples are applicable / %d of %d random programs gave a verdict: the templates no longer match the language"
                    % (n_app, len(triples), r_acc + r_rej, nrand), {"inapplicable": inapplicable[:20]}, found_input=False)
     ndeep = run_deep_paths(ctx, binary, base) + run_import_writes(ctx, binary, base)
-    spec_fail += sum(1 for v in ctx.viol if v[0] in ("const-write-accepted:deep-path", "const-write-accepted:import"))
+    spec_fail += sum(1 for v in ctx.viol if v[0] in ("const-write-accepted:deep-path", "const-write-accepted:through-get-or", "const-write-accepted:import"))
     ctx.cov["evaluations"] = len(triples) + sum(1 for t in triples if t["ntexts"]) + nrand + 2 * ndeep
     ctx.cov["triples"] = len(triples)
     ctx.cov["applicable"] = n_app
